@@ -840,6 +840,9 @@ class ModelReader:
 
     def read_model(self, **kwargs):
 
+        iomanager = self.system.iomanager
+        ios_before = set(id(io_) for io_ in iomanager.ios.values())
+
         try:
             self.system.serializing = self
             self.system.iomanager.serializing = True
@@ -866,11 +869,14 @@ class ModelReader:
         except:
             if self.model:
                 self.model.close()
-            if self.iospecs:
-                # The specs that were read but not yet bound to a reference
-                # are unknown to the model: delete them with their ios
-                for spec in self.iospecs.values():
-                    self.system.iomanager.del_spec(spec)
+            # The unpicklers register specs and their file objects in
+            # the IOManager as they read them, before the values are
+            # bound to references: closing the model does not find them.
+            for spec in (self.iospecs or {}).values():
+                iomanager.del_spec(spec)
+            for key, io_ in list(iomanager.ios.items()):
+                if id(io_) not in ios_before:   # created by this load
+                    del iomanager.ios[key]
             raise
 
         finally:
